@@ -268,7 +268,17 @@ def _run(ctx, pgpy, d):
     check_pins(ctx, pgpy)
     rng = ctx.rng
 
-    # ---- 1. dash escape / unescape / canonical octets: unit correspondences + laws, random and exhaustive-small ----
+    # ---- 0. regression corpus: witnesses of repaired defects (known_findings.json, kind=fixed) run first ----
+    for e in getattr(ctx, 'fixed', []):
+        w = e.get('witness', {})
+        if 'text' in w:
+            kk = {'ed25519': get('ed25519')}
+            ctx.case('regression', e['key'], sample={'key': e['key'], 'witness': w})
+            before = len(ctx.violations)
+            one_flow(ctx, pgpy, d, kk, w['text'], ['ed25519'], ['SHA256'], [], T0)
+            if len(ctx.violations) > before:
+                ctx.violations[before]['what'] = 'repaired defect is back: %s (%s)' % (e.get('what', e['key']), ctx.violations[before]['what'])
+
     alpha = ['-', ' ', '\n', '\r', 'a', '\t']
     maxlen = ctx.n(5, 7)
     small = [''.join(c) for k in range(0, maxlen + 1) for c in itertools.product(alpha, repeat=k)]
